@@ -2107,6 +2107,26 @@ func sitesExclusive(l []inlSite) bool {
 						excl = true
 					}
 				}
+				// `if c { …; return a() }` followed by b(): the branch leaves, what follows it is its else
+				if bs, ok := p.(*ast.BlockStmt); ok {
+					leavingIf := func(x, y *ast.CallExpr) bool {
+						for k, st := range bs.List {
+							is, ok := st.(*ast.IfStmt)
+							if !ok || is.Else != nil || !inside(x, is.Body) || !terminates(is.Body) {
+								continue
+							}
+							for _, later := range bs.List[k+1:] {
+								if inside(y, later) {
+									return true
+								}
+							}
+						}
+						return false
+					}
+					if leavingIf(a.call, b.call) || leavingIf(b.call, a.call) {
+						excl = true
+					}
+				}
 				break
 			}
 			if !excl {
